@@ -14,7 +14,7 @@ for f in _out/demo_$I.*; do cp "$f" "$OUT/"; done
 cp "_out/meta_$I.json" "$OUT/agent_meta.json" 2>/dev/null
 run_demo() {
   if [ -f "_out/demo_$I.sh" ]; then bash "_out/demo_$I.sh" >>"$LOG" 2>&1; return $?; fi
-  if [ -f "_out/demo_$I.rs" ] && grep -q "^use super::\*;" "_out/demo_$I.rs"; then
+  if [ -f "_out/demo_$I.rs" ] && grep -q "^use super::" "_out/demo_$I.rs"; then
     mod=$(grep -o ">> src/[a-z_]*\.rs" "_out/demo_$I.rs" | head -1 | sed 's/>> //')
     [ -n "$mod" ] || mod=src/octets.rs
     cp "$mod" /tmp/_seed_backup_$$.rs
@@ -33,7 +33,8 @@ PY
   if [ -f "_out/demo_$I.rs" ]; then
     if grep -q "^// *RUN:" "_out/demo_$I.rs"; then cmd=$(grep "^// *RUN:" "_out/demo_$I.rs" | head -1 | sed 's/^\/\/ *RUN: *//'); bash -c "$cmd" >>"$LOG" 2>&1; return $?; fi
     mkdir -p tests; cp "_out/demo_$I.rs" tests/demo_$I.rs
-    cargo test --offline --test demo_$I >>"$LOG" 2>&1; rc=$?; rm -f tests/demo_$I.rs; rmdir tests 2>/dev/null; return $rc
+    FEAT=""; grep -q "features benchmarking" "_out/demo_$I.rs" && FEAT="--features benchmarking"
+    cargo test --offline $FEAT --test demo_$I >>"$LOG" 2>&1; rc=$?; rm -f tests/demo_$I.rs; rmdir tests 2>/dev/null; return $rc
   fi
   return 99
 }
